@@ -171,8 +171,10 @@ def random_history(rng, length, style="mixed"):
 def leak_pattern(rng):
     """create a few, failing batch delete, then create again (index reuse must follow)."""
     n = rng.randint(2, 6)
+    if rng.random() < 0.15:
+        n = rng.choice([66, 70, 130, 200])      # batches longer than 64, failing beyond position 64
     hist = [(CI, [n])]
-    k = rng.randint(1, n - 1)
+    k = rng.randint(1, n - 1) if n < 60 else rng.randint(64, n - 1)
     batch = list(range(k)) + [rng.randrange(k)] + list(range(k, n))[:rng.randint(0, 2)]
     hist.append((DM, batch))
     if rng.random() < 0.5:
